@@ -96,7 +96,7 @@ Theorem C16_rows_partial : forall c i, wf_cfg c = true -> body_total c -> shaped
   s_in st = i -> mixed_zero_in c i = false -> s_failed st = false -> hit c st = false ->
   run c order st =
     if nrows c i =? 0 then (st, Raised ValueErrorAllZero false [])
-    else (built c i, Returned (Some (spec_table c i)) (spec_calls c i)).
+    else (built c (s_cache st) i, Returned (Some (spec_table c i)) (spec_calls c i)).
 Proof. exact run_miss. Qed.
 Print Assumptions C16_rows_partial.
 
@@ -117,7 +117,10 @@ Print Assumptions C16_collect_by_row.
 (* ---- re-runs: all histories ------------------------------------------------------------ *)
 (* From creation, after ANY sequence of steps (each: re-assign any inputs -- lengths may change
    freely -- then run with any completion order; steps may hit the cache, be refused for
-   missing inputs or for having no combination), one more step on complete inputs gives
+   missing inputs or for having no combination) interleaved with ANY re-assignments of the
+   node's use_cache flag (on -> off -> on ...: a rebuild forgets the remembered inputs whether
+   or not the flag is on, so nothing remembered outlives the sub-graph it belongs to), one
+   more step on complete inputs gives
    exactly the table of THESE inputs (whether answered from the cache or rebuilt: nothing
    stale), with body calls = none (hit) or one per row (rebuild), and leaves exactly the
    children of these inputs.  PARTIAL: every step's inputs satisfy [ok_inputs] (right shapes;
@@ -158,7 +161,7 @@ Print Assumptions C16_for_node_fresh.
    that many independent nodes, each of its own configuration *)
 Theorem C16_session_independent : forall reg qs,
   session_go reg qs =
-  map (fun qs : request * list step =>
+  map (fun qs : request * list xstep =>
          OL [OS (name_of (fst qs) (fresh_class (fst qs))); scenario (cfg_of (fst qs)) (snd qs)]) qs.
 Proof. exact session_independent. Qed.
 Print Assumptions C16_session_independent.
